@@ -122,7 +122,7 @@ def d9(root):
     r = FileBuilder.build(cache, "n", main2)
     return None if r == "FileNotFoundError" else "declare_read below a regular file gave %s" % r
 
-if __name__ == "__main__":
+def _main():
     which = sys.argv[1].lower()
     root = tempfile.mkdtemp(prefix="fbrepro_", dir=os.environ.get("VERIF_TMP"))
     try:
@@ -133,3 +133,32 @@ if __name__ == "__main__":
         print("DEFECT %s: %s" % (which.upper(), msg))
         sys.exit(1)
     print("ok", which.upper())
+
+
+def d13(root):
+    """a directory the previous build created was replaced by a foreign regular file; the next build
+    overwrites that file and rolls back: the foreign file must be back"""
+    cache = os.path.join(root, "cache")
+    def wr(b, p):
+        w(p, "x")
+    def main1(b):
+        b.build_file(os.path.join(root, "D", "o"), "wr", wr)
+    FileBuilder.build(cache, "n", main1)
+    shutil.rmtree(os.path.join(root, "D"))
+    w(os.path.join(root, "D"), "foreign")
+    def main2(b):
+        b.build_file(os.path.join(root, "D"), "wr", wr)
+        raise Boom()
+    try:
+        FileBuilder.build(cache, "n", main2)
+    except Boom:
+        pass
+    p = os.path.join(root, "D")
+    if not os.path.isfile(p) or open(p).read() != "foreign":
+        return "overwritten foreign file at the path of a previously created directory is not restored by rollback (now: %s)" % (
+            "directory" if os.path.isdir(p) else "missing" if not os.path.exists(p) else repr(open(p).read()))
+    return None
+
+
+if __name__ == "__main__":
+    _main()
